@@ -14,6 +14,7 @@ for l in open('/verif/properties.jsonl'):
 ideas=[json.load(open(f)) for f in sorted(glob.glob('/verif/seeded/%s-*/meta.json'%pid))]
 txt="# Note on earlier rounds\n\nOther people already produced the following breaking changes for this property. Yours must be DIFFERENT in mechanism and in the part of the code / behaviour of the property they attack (aim at clauses of the property statement, code paths, environments, histories or resource types that these do not touch):\n\n"
 for m in ideas: txt+="* "+m['needs_to_manifest'].strip()+"\n"
+txt+="\nAngles that earlier rounds used little and that you may consider (only where they fit the property): a second public entry point or option that reaches the same behaviour; state carried from one call/session/message to the next (caches, pools, reused values); the environment of the call (slow or failing callbacks, resource limits, other goroutines using the same object, contexts that end later); numeric and size boundaries of every remote- or caller-controlled number; a corruption that is self-consistent (the library reads back exactly what it wrote, only an independent reader would notice); error paths that lose or overwrite an earlier error; behaviour that differs only for one value out of 256 or one length out of thousands.\n"
 open('/tmp/%s-%s.avoid.md'%(tag,pid),'w').write(txt)
 PY
 done
